@@ -121,6 +121,19 @@ def apply_op(o, op):
                           material=lensgen.make_material(a['material']), is_stop=a.get('is_stop', False), **kw)
         elif k == 'rm':
             o.surface_group.remove_surface(op[1])
+        elif k in ('sr', 'sc', 'st', 'si', 'sa') and op[-1] == 'V':
+            # the quantifier's "variable updates": apply_scaling=False hands the raw value to the same setter
+            if k in ('st', 'si') and op[2] + 1 >= len(o.surface_group.surfaces):
+                raise IndexError
+            if not 0 <= op[2] < len(o.surface_group.surfaces):
+                raise IndexError
+            vt = {'sr': 'radius', 'sc': 'conic', 'st': 'thickness', 'si': 'index', 'sa': 'asphere_coeff'}[k]
+            kw = {'surface_number': op[2], 'apply_scaling': False}
+            if k == 'sa':
+                kw['coeff_number'] = op[3]
+            if k == 'si':
+                kw['wavelength'] = o.primary_wavelength
+            Variable(o, vt, **kw).update(op[1])
         elif k == 'sr':
             o.set_radius(op[1], op[2])
         elif k == 'sc':
@@ -183,6 +196,10 @@ def gen_history(rng, malformed=False):
             ops.append(('si', dyadic(rng, 1.3, 2.0, 8), rng.randint(1, n - 2)))
         elif u < 0.56:
             ops.append(('sa', dyadic(rng, -1, 1, 10) * 2.0 ** -14, k, rng.randint(0, 2)))
+        if u < 0.56 and rng.random() < 0.3:
+            ops[-1] = ops[-1] + ('V',)      # the same edit through an unscaled optimisation Variable (variable update)
+        if False:
+            pass
         elif u < 0.62:
             ops.append((rng.choice(['tx', 'ty']), dyadic(rng, -0.25, 0.25, 8), k))
         elif u < 0.68:
@@ -366,6 +383,11 @@ def check_update(ctx, case, o, after):
         ya = np.ravel(ya)
         ua = np.ravel(ua)
         launch_fixed = (o.object_surface.is_infinite and o.aperture.ap_type == 'EPD')
+        if not np.all(np.isfinite(ya)) or float(np.max(np.abs(ya))) > 1e6 * max(1.0, abs(float(o.aperture.value))):
+            # e.g. a solve that asks for height 0 on the stop itself: the stop sits at the marginal focus, the
+            # entrance pupil at infinity, heights of 1e16 - no solve can be judged on such a lens
+            ctx.count('pred: solves on a degenerate lens (marginal ray not finite or astronomically large) - skipped')
+            return
         for s in sv:
             if not (launch_fixed or (o.surface_group.stop_index or 0) < s.surface_idx):
                 ctx.count('pred: solve in front of the stop with a lens-dependent launch - skipped')
